@@ -23,7 +23,7 @@ META = {
                           'tables_all_crosses'],
     'shards': {'quick': 16, 'thorough': 16},
     'exhaustive': {'quick': 'all 682 boolean tables with <= 3 objects and <= 3 properties',
-                   'thorough': 'all boolean tables <= 3x3 plus all 3x4 and 4x3 tables (8 874 tables)'},
+                   'thorough': 'all boolean tables <= 3x3 plus all 3x4, 4x3 and 4x4 tables (74 410 tables)'},
     'assumptions': ['concept members are read through Concept.extent/.intent'],
 }
 
@@ -211,6 +211,12 @@ def run_case(concepts, case, spec):
         for _ in range(rng.randint(0, 2)):
             next(it, None)
         del it
+    if rng.random() < .3:           # two iterations of one lattice alive at once
+        it1 = iter(lat)
+        next(it1, None)
+        call(list, lat)
+        call(list, it1)
+        COL.count('interleaved_iterations')
     old = POOL.older(rng)
     if old is not None:
         call(list, old)
